@@ -1466,6 +1466,184 @@ theorem c09_single_sends_exact (s : St) (hi : Inv s) (t : Tni) (d : Peer) (n : N
     rw [(c09_sendToParent_reports rsend s t).2 d hp]
     exact (c09_sendTo_exact s hi t d).1
 
+/-! ### the moment of tree propagation -/
+
+/-- **a failed tree request leaves no mark**: a message over an unknown tree whose request cannot
+be sent (nothing listens at the sender any more) is parked, the caller is told, and the tree id is
+not left marked as asked for -/
+theorem c09_failed_tree_request_leaves_no_mark {σ : Type} (rs : RS σ) (s : σ) (o : Trees) (p : Peer) (t m : Nat)
+    (hk : o.known.contains t = false) (ha : o.asked.contains t = false) (he : (rs s p 1).2 = .err) :
+    let r := transmit true rs s o p t m
+    r.2.2 = .err ∧ r.2.1.asked = o.asked ∧ r.2.1.parked = o.parked ++ [(t, m)] ∧
+    r.2.1.known = o.known ∧ r.2.1.handled = o.handled := by
+  simp only [transmit, hk, ha, he, Bool.false_eq_true, if_false]
+  simp
+
+/-- **once the peer is back the tree is asked for again and every parked message is handled**:
+after a request that failed, whatever happened to the router meanwhile (`s'`), the next message
+over the same tree finds no mark, so a new request goes out; when it can be sent (the peer listens
+again) the id is marked, the peer's answer is accepted, and the messages parked for the tree —
+those from before the failure, the one that failed, the new one — are handed to their instances in
+order of arrival -/
+theorem c09_tree_request_retried_after_restart {σ : Type} (rs : RS σ) (s s' : σ) (o : Trees) (p : Peer) (t m m' : Nat)
+    (hk : o.known.contains t = false) (ha : o.asked.contains t = false)
+    (he : (rs s p 1).2 = .err) (hok : (rs s' p 1).2 = .ok) :
+    let r1 := transmit true rs s o p t m
+    let r2 := transmit true rs s' r1.2.1 p t m'
+    let o3 := treeArrives r2.2.1 t
+    r2.2.2 = .ok ∧ r2.2.1.asked.contains t = true ∧
+    o3.known.contains t = true ∧ o3.parked.filter (·.1 == t) = [] ∧
+    o3.handled = o.handled ++ o.parked.filter (·.1 == t) ++ [(t, m), (t, m')] := by
+  simp only [transmit, hk, ha, he, hok, Bool.false_eq_true, if_false, if_true]
+  simp [treeArrives, List.filter_append]
+
+/-- the variant that leaves the mark after a failed request: the next message over the tree is
+parked without anybody being asked (the router is not even called), and it stays parked — an
+answer can never come -/
+theorem c09_tree_request_mark_must_be_taken_back {σ : Type} (rs : RS σ) (s s' : σ) (o : Trees) (p : Peer) (t m m' : Nat)
+    (hk : o.known.contains t = false) (ha : o.asked.contains t = false) (he : (rs s p 1).2 = .err) :
+    let r1 := transmit false rs s o p t m
+    let r2 := transmit false rs s' r1.2.1 p t m'
+    r2.1 = s' ∧ r2.2.1.known = o.known ∧ r2.2.1.parked = o.parked ++ [(t, m), (t, m')] ∧ r2.2.1.handled = o.handled := by
+  simp only [transmit, hk, ha, he, Bool.false_eq_true, if_false]
+  simp
+
+/-- on this router: the request fails exactly while nothing listens at the sender, and succeeds
+once it is back — so `c09_tree_request_retried_after_restart` applies to every history in which the
+sender of an orphan message dies and restarts -/
+theorem c09_tree_request_follows_the_peer (s : St) (hi : Inv s) (p : Peer) :
+    (rsend s p 1).2 = (if s.up.contains p = true then .ok else .err) :=
+  (rsend_exact s hi p 1 (by omega)).1
+
+/-! ### the in-memory transport: a peer that closes while sends are in flight -/
+
+structure LmInv (s : Lm) : Prop where
+  hold : ∀ i : Nat, s.senders[i]? = some SndPc.holding → s.lock = some i ∧ s.isOpen = true
+  lk   : ∀ i : Nat, s.lock = some i → s.senders[i]? = some SndPc.holding
+  np   : ∀ i : Nat, s.senders[i]? ≠ some SndPc.panicked
+
+theorem lm_inv_step {s s' : Lm} {a : LmAct} (h : LmInv s) (hs : lmStep true s a = some s') : LmInv s' := by
+  obtain ⟨h1, h2, h3⟩ := h
+  cases a with
+  | sendCall =>
+    simp only [lmStep] at hs; cases hs
+    refine ⟨?_, ?_, ?_⟩
+    · intro i hi; have : s.senders[i]? = some SndPc.holding := by grind
+      exact h1 i this
+    · intro i hi; have := h2 i hi; grind
+    · intro i hi; have : s.senders[i]? = some SndPc.panicked := by grind
+      exact h3 i this
+  | lookup j =>
+    simp only [lmStep] at hs
+    split at hs
+    · rename_i hc
+      have hlt : j < s.senders.length := by have := hc.1; grind
+      have nohold : ∀ k : Nat, s.senders[k]? ≠ some SndPc.holding := by
+        intro k hk; have := (h1 k hk).1; simp [hc.2] at this
+      split at hs
+      · rename_i ho
+        cases hs
+        refine ⟨?_, ?_, ?_⟩
+        · intro i hi
+          by_cases hij : j = i
+          · subst hij; exact ⟨rfl, ho⟩
+          · rw [List.getElem?_set_ne hij] at hi; exact absurd hi (nohold i)
+        · intro i hi
+          simp only [if_true, Option.some.injEq] at hi
+          subst hi; exact List.getElem?_set_self hlt
+        · intro i hi
+          by_cases hij : j = i
+          · subst hij; rw [List.getElem?_set_self hlt] at hi; simp at hi
+          · rw [List.getElem?_set_ne hij] at hi; exact h3 i hi
+      · cases hs
+        refine ⟨?_, ?_, ?_⟩
+        · intro i hi
+          by_cases hij : j = i
+          · subst hij; rw [List.getElem?_set_self hlt] at hi; simp at hi
+          · rw [List.getElem?_set_ne hij] at hi; exact absurd hi (nohold i)
+        · intro i hi; simp [hc.2] at hi
+        · intro i hi
+          by_cases hij : j = i
+          · subst hij; rw [List.getElem?_set_self hlt] at hi; simp at hi
+          · rw [List.getElem?_set_ne hij] at hi; exact h3 i hi
+    · cases hs
+  | enqueue j =>
+    simp only [lmStep] at hs
+    split at hs
+    · rename_i hc
+      have hlt : j < s.senders.length := by grind
+      obtain ⟨hl, ho⟩ := h1 j hc
+      have uniq : ∀ k : Nat, s.senders[k]? = some SndPc.holding → k = j := by
+        intro k hk; have := (h1 k hk).1; rw [hl] at this; exact (Option.some.inj this).symm
+      split at hs
+      · rename_i hno; simp [ho] at hno
+      · split at hs
+        · cases hs
+          refine ⟨?_, by simp, ?_⟩
+          · intro i hi
+            by_cases hij : j = i
+            · subst hij; rw [List.getElem?_set_self hlt] at hi; simp at hi
+            · rw [List.getElem?_set_ne hij] at hi; exact absurd (uniq i hi) (fun e => hij e.symm)
+          · intro i hi
+            by_cases hij : j = i
+            · subst hij; rw [List.getElem?_set_self hlt] at hi; simp at hi
+            · rw [List.getElem?_set_ne hij] at hi; exact h3 i hi
+        · cases hs
+    · cases hs
+  | drain =>
+    simp only [lmStep] at hs
+    split at hs
+    · cases hs; exact ⟨h1, h2, h3⟩
+    · cases hs
+  | close =>
+    simp only [lmStep] at hs
+    split at hs
+    · rename_i hc
+      cases hs
+      refine ⟨?_, h2, h3⟩
+      intro i hi; have := (h1 i hi).1; simp [hc.1] at this
+    · cases hs
+
+/-- **a close never races an enqueue**: with the look-up and the hand-over to the queue in one
+region of the manager's lock (the code as it is), for every interleaving of unboundedly many
+senders, a receiver that takes messages or not, and the close of the connection: no sender is ever
+between look-up and hand-over when the queue is closed — nobody writes to a closed channel, no
+send panics; a sender that comes after the close is told `ErrClosed` -/
+theorem c09_close_never_races_an_enqueue (cap : Nat) (acts : List LmAct) :
+    let s := lmRun true { cap := cap } acts
+    (∀ i : Nat, s.senders[i]? ≠ some SndPc.panicked) ∧
+    (s.isOpen = false → ∀ i : Nat, s.senders[i]? ≠ some SndPc.holding) ∧
+    (∀ i : Nat, s.isOpen = false → s.senders[i]? = some SndPc.want →
+      ∃ s', lmStep true s (.lookup i) = some s' ∧ s'.senders[i]? = some (SndPc.done false)) := by
+  intro s
+  have hinv : LmInv s := by
+    have key : ∀ (t : Lm), LmInv t → LmInv (lmRun true t acts) := by
+      induction acts with
+      | nil => intro t ht; exact ht
+      | cons a as ih =>
+        intro t ht
+        simp only [lmRun]
+        cases hs : lmStep true t a with
+        | none => exact ih t ht
+        | some t' => exact ih t' (lm_inv_step ht hs)
+    exact key _ ⟨by simp, by simp, by simp⟩
+  refine ⟨hinv.np, ?_, ?_⟩
+  · intro hc i hi; have := (hinv.hold i hi).2; simp [hc] at this
+  · intro i hc hi
+    have hl : s.lock = none := by
+      cases hl : s.lock with
+      | none => rfl
+      | some k => have := (hinv.hold k (hinv.lk k hl)).2; simp [hc] at this
+    have hlt : i < s.senders.length := by grind
+    exact ⟨{ s with senders := s.senders.set i (.done false) }, by simp [lmStep, hi, hl, hc],
+      by simp [List.getElem?_set_self hlt]⟩
+
+/-- the variant that releases the lock between look-up and hand-over: a sender that has found the
+connection and waits for room in its queue is overtaken by the close and writes to the closed
+channel -/
+theorem c09_enqueue_outside_the_lock_panics :
+    (lmRun false {} [.sendCall, .lookup 0, .close, .enqueue 0]).senders = [.panicked] := by decide
+
 /-! ### non-vacuity and a worked history -/
 
 private def s0 : St := { dpc := 5, up := [1, 2] }
